@@ -210,6 +210,15 @@ def neutral_edits(G):
                 cur = n["args"].get(name, f["default"])
                 H["nodes"][l]["args"][name] = _alt(kind, cur)
                 yield (f"ignored-value:{name}", H, None)
+            if not f["ignored"] and kind.startswith("opt:cfg:") and n["args"].get(name) is None and kind.split(":")[2] in ("leaf", "box", "ring", "holder"):
+                # an optional parameter left unset vs. holding a sub-configuration flagged meta: both are outside the signature
+                H = copy.deepcopy(G)
+                H["_n"] = 600
+                c = add_default_node(H, kind.split(":")[2])
+                H["nodes"][c]["meta"] = True
+                H["nodes"][l]["args"][name] = {"ref": c}
+                H.pop("_n")
+                yield ("meta-config-in-optional", H, None)
             if f["ignored"] and kind == "opt:cfg:leaf" and n["args"].get(name) is None:
                 H = copy.deepcopy(G)
                 H["_n"] = 500
@@ -575,6 +584,8 @@ def extract(root_obj, instance=False, with_generated=False):
             x = o.__xpm__
             if x.task is not None and x.task is not o:
                 nodes[l] = {"output_of": label_of(x.task), "v": x.values.get("v")}
+                if x.pre_tasks:
+                    nodes[l]["pre"] = [label_of(p) for p in x.pre_tasks]
                 continue
         n = {"cls": key, "args": {}, "meta": None, "pre": [], "init": []}
         for f in SCHEMA[key]["fields"]:
@@ -606,6 +617,8 @@ def normalize(G, instance=False, root_init=True):
                 H["nodes"][l] = {"cls": "out", "args": {"v": t["args"].get("x", 0)}, "meta": None, "pre": [], "init": []}
             else:
                 H["nodes"][l] = {"output_of": n["output_of"]}
+                if n.get("pre"):
+                    H["nodes"][l]["pre"] = list(n["pre"])
             continue
         args = R.node_args(G, l)
         for f in SCHEMA[n["cls"]]["fields"]:
@@ -750,6 +763,7 @@ def _reach_runtime(G, root_init):
         seen.append(l)
         n = G["nodes"][l]
         if "output_of" in n:
+            stack.extend(n.get("pre", []))
             continue
         for v in n["args"].values():
             stack.extend(R.refs_in(v))
@@ -865,6 +879,8 @@ def expected_upstream(G):
         if l != root:
             if "output_of" in n:
                 out.add(n["output_of"])
+                # pre-tasks attached to the output configuration are walked like everywhere else
+                stack.extend(n.get("pre", []))
                 continue
             if is_task(G, l):
                 out.add(l)
